@@ -519,6 +519,10 @@ def one_sinks(sio, spec, opts):
     except Exception as e:
         return {"build": "err:" + type(e).__name__}
     rec["build"] = "ok"
+    try:
+        rec["original"] = "ok:" + PE.value_text(obj)
+    except Exception as e:  # noqa
+        rec["original"] = "err:" + type(e).__name__
     for method, level in opts["configs"]:
         # "file_ab": a file object opened for appending (empty file); "writeonly": an object that only has write()
         for sink in ("dumps", "str", "path", "file", "file_ab", "writeonly"):
